@@ -20,8 +20,9 @@ ASSUMPTIONS = [
     "one 500 ms error sleep may precede the stop when accept() has just failed (not injected here; C12 thorough injects EMFILE)",
     "the phase 'response being written' is exercised only as the transient between handler return and the next loop head "
     "(a write blocked on a non-reading client is not staged)",
-    "inflight_completes / at_most_one_more_request are tied to the implementation by equality of the response / closed-connection "
-    "counts with the model (correspondence); the boolean oracle covers the stop signal, the listener and accept-after-stop",
+    "the boolean oracles cover the stop signal, the listener, accept-after-stop (oracle_c13_acc) and 'after the revocation every "
+    "completed response is followed by the server closing that connection' (oracle_c13_conn), both proved sound for all scenarios; "
+    "that a running handler's response is complete is additionally tied to the implementation by equality of the response counts",
     "an open connection on which the client never sends again stays open after the stop (the statement's 'at most one further request')",
 ]
 EXHAUSTIVE = {"quick": False, "thorough": False}
